@@ -8,7 +8,9 @@ from .. import effects_parts as P
 GENERATORS = ["tr_effects.py"]
 LEVEL_NOTE = ("L-eff commit order: commit_discipline_sound proved for structured skeletons; per-class verdicts by vm_compute over "
               "skeletons regenerated from the Python AST; a statement may raise iff it contains a call outside the whitelist "
-              "(.to/.detach/.clone/.size/.dim/.numel/len/range/isinstance, in-place accumulation of an already computed statistic); "
+              "(.to/.detach/.clone/.size/.dim/.numel/len/range/isinstance, in-place accumulation of an already computed statistic onto a field whose shape is fixed by the constructor; "
+              "an in-place write onto a DATA-SHAPED field -- one that update() itself re-binds to a computed tensor -- is fallible: "
+              "MayRaise 'inplace:f', accepted only as the first state write of a path); "
               "discharge list (calls assumed total after whole-tensor validation): BinaryBinnedAUPRC per-task _update, "
               "RetrievalPrecision/Recall per-query cat/get_topk/gather, PeakSignalNoiseRatio target.min/max; "
               "native-kernel memory safety is not claimed by this part")
